@@ -76,3 +76,24 @@ func TestC05NonFinite(t *testing.T) {
 	st.Exhaustive["C05.non-finite"] = fmt.Sprintf("%d ways of producing +Inf, -Inf and NaN by overflowing sums x (every function x every argument position x 6 wrappings + 30 operator/projection contexts): %d expressions, none may panic", len(nonFinite), n)
 	st.mu.Unlock()
 }
+
+// TestC05Operands: every ordered pair of the C07 value universe under every binary operator,
+// contains() and the by-value functions, as literals: no pair of values may bring the
+// library down (comparisons of arrays and objects of different sizes, one a prefix of the other).
+func TestC05Operands(t *testing.T) {
+	n := 0
+	tmpls := []string{"%s == %s", "%s != %s", "%s < %s", "%s >= %s", "%s || %s", "%s && %s", "contains(%s, %s)", "[%s][?@ == %s]", "[%s, %s] | [0] == [1]", "not_null(%s, %s)", "[%s, %s] | sort_by(@, &to_string(@))", "merge(%s, %s)", "starts_with(%s, %s)", "join(%s, %s)", "[%s] | contains(@, %s)"}
+	for _, x := range universeC07 {
+		for _, y := range universeC07 {
+			for _, tm := range tmpls {
+				e := strings.Replace(strings.Replace(tm, "%s", lit(x), 1), "%s", lit(y), 1)
+				run(t, Case{Property: "C05", Kind: "robust", Expr: e, Doc: "null", Extra: map[string]interface{}{"class": "operand-pair"}})
+				n++
+			}
+		}
+	}
+	st := statsFor("C05")
+	st.mu.Lock()
+	st.Exhaustive["C05.operand-pairs"] = fmt.Sprintf("%d^2 ordered pairs of universe values x %d two-operand constructs: %d expressions, none may panic (and each must evaluate like the reference model)", len(universeC07), len(tmpls), n)
+	st.mu.Unlock()
+}
